@@ -163,6 +163,7 @@ func runC17SioRestart(c *sim.Ctx, t *testing.T) {
 	seenLog := map[int]int{}
 	lastReported := map[string]bool{} // ids in the last timers state reported before the crash
 	removedReported := map[string]bool{}
+	staleReport := ""
 	for _, e := range evs {
 		c.MixHash(fmt.Sprintf("%d %s %s %s %d %v %s", e.Seq, e.Kind, e.Id, e.Err, e.N, e.At, vfShort(e.Val)))
 		v := e.Val
@@ -198,15 +199,6 @@ func runC17SioRestart(c *sim.Ctx, t *testing.T) {
 				continue
 			}
 			phase := int(e.N)
-			if h, ok := r.Changed["h"]; ok && h.State != nil {
-				entries, _ := h.State.Bs["log"].([]interface{})
-				for _, x := range entries[vfMin(seenLog[phase], len(entries)):] {
-					em, _ := x.(map[string]interface{})
-					at, _ := em["at"].(float64)
-					fires = append(fires, fire{fmt.Sprint(em["id"]), time.Duration(int64(at)-t0.UnixMilli()) * time.Millisecond, phase})
-				}
-				seenLog[phase] = len(entries)
-			}
 			if tm, ok := r.Changed["timers"]; ok && tm.State != nil && phase == 1 {
 				now := map[string]bool{}
 				if mp, ok := tm.State.Bs["timers"].(map[string]interface{}); ok {
@@ -221,9 +213,32 @@ func runC17SioRestart(c *sim.Ctx, t *testing.T) {
 				}
 				lastReported = now
 			}
+			if h, ok := r.Changed["h"]; ok && h.State != nil {
+				entries, _ := h.State.Bs["log"].([]interface{})
+				for _, x := range entries[vfMin(seenLog[phase], len(entries)):] {
+					em, _ := x.(map[string]interface{})
+					at, _ := em["at"].(float64)
+					fires = append(fires, fire{fmt.Sprint(em["id"]), time.Duration(int64(at)-t0.UnixMilli()) * time.Millisecond, phase})
+					// the removal of a fired timer is published before its message is emitted, so by
+					// the time the result of handling that message is out, no report may still list it
+					if phase == 1 {
+						p := fmt.Sprint(em["id"])
+						for _, tm := range timers {
+							if tm.payload == p && lastReported[tm.id] && staleReport == "" {
+								staleReport = fmt.Sprintf("timer %s has fired (its message was handled) but the last reported timers state still lists it as pending", tm.id)
+							}
+						}
+					}
+				}
+				seenLog[phase] = len(entries)
+			}
 		}
 	}
 	desc := fmt.Sprintf("timers %s; crash %v after the last request (at %v), downtime %v, boot at %v; fires %v", vfRtString(timers), crashAfter, crashAt, downtime, bootAt, fires)
+	if staleReport != "" {
+		c.Violate("timer:sio:restart:stale-report", "%s (%s)", staleReport, desc)
+		return
+	}
 	if bootErr != "" {
 		c.Violate("timer:sio:restart:boot-error", "the crew could not be rebuilt from the stored state: %s (%s)", bootErr, desc)
 		return
